@@ -292,7 +292,7 @@ func outcomeTypedUnit[T helper.Number](c *core.Ctx, tname string, alphabet []T, 
 func init() {
 	core.Register(&core.Check{
 		ID:     "C08",
-		Rule:   "every action word over {Sell,Hold,Buy} x every value word over {1,2,4}, all pairs of lengths up to 5 (6 thorough) including unequal lengths; each pair is one execution of the real Outcome / NormalizeActions / DenormalizeActions / CountTransactions pipelines under the controlled scheduler; oracle: reference cash/shares simulator plus the statement's invariants one by one; states = (values, actions) pairs, transitions = scheduler events, non-trivial = pairs on which the buy-and-hold identity was checked; plus Outcome instantiated with int, int64, int8 and float32 value streams (three values each with non-integral ratios, equal lengths up to 4 / 5) against the same simulator in float64",
+		Rule:   "every action word over {Sell,Hold,Buy} x every value word over {1,2,4}, all pairs of lengths up to 5 (6 thorough) including unequal lengths; each pair is one execution of the real Outcome / NormalizeActions / DenormalizeActions / CountTransactions pipelines under the controlled scheduler; oracle: reference cash/shares simulator plus the statement's invariants one by one; states = (values, actions) pairs, transitions = scheduler events, non-trivial = pairs on which the buy-and-hold identity was checked; plus Outcome instantiated with int, int64, int8 and float32 value streams and float64 streams of very large / very small quotes (three values each with non-integral ratios, equal lengths up to 4 / 5) against the same simulator in float64",
 		Assume: []string{"values range over {1,2,4} (positive, powers of two so value ratios are exact); lengths up to the stated bound"},
 		Units: func(tier string) []core.Unit {
 			L := 5
@@ -321,6 +321,11 @@ func init() {
 			us = append(us, core.Unit{Key: "outcome-int", Cost: 300, Run: func(c *core.Ctx) { outcomeTypedUnit(c, "int", []int{10, 15, 4}, T) }})
 			us = append(us, core.Unit{Key: "outcome-int64", Cost: 300, Run: func(c *core.Ctx) { outcomeTypedUnit(c, "int64", []int64{3, 2, 1 << 40}, T) }})
 			us = append(us, core.Unit{Key: "outcome-int8", Cost: 300, Run: func(c *core.Ctx) { outcomeTypedUnit(c, "int8", []int8{100, 127, 3}, T) }})
+			us = append(us, core.Unit{Key: "outcome-float64-huge", Cost: 300, Run: func(c *core.Ctx) { outcomeTypedUnit(c, "float64 (quotes of 1e12)", []float64{1e12, 3e12, 5e11}, T) }})
+			us = append(us, core.Unit{Key: "outcome-float64-tiny", Cost: 300, Run: func(c *core.Ctx) { outcomeTypedUnit(c, "float64 (quotes of 1e-12)", []float64{1e-12, 3e-12, 5e-13}, T) }})
+			us = append(us, core.Unit{Key: "outcome-float64-crash", Cost: 300, Run: func(c *core.Ctx) {
+				outcomeTypedUnit(c, "float64 (a collapse by 1e-12 and a recovery)", []float64{1, 1e-12, 2e-12}, T)
+			}})
 			us = append(us, core.Unit{Key: "outcome-float32", Cost: 300, Run: func(c *core.Ctx) { outcomeTypedUnit(c, "float32", []float32{1.5, 2.25, 0.1}, T) }})
 			return us
 		},
